@@ -316,7 +316,9 @@ func (gen *generator) translateTopLevelEntities() error {
 		return errors.WithStack(err)
 	}
 	// 4b2. Translate AST attribute group definitions to IR.
-	gen.translateAttrGroupDefs()
+	if err := gen.translateAttrGroupDefs(); err != nil {
+		return errors.WithStack(err)
+	}
 	// 4b3. Translate AST named metadata definitions to IR.
 	if err := gen.translateNamedMetadataDefs(); err != nil {
 		return errors.WithStack(err)
@@ -346,21 +348,24 @@ func (gen *generator) translateComdatDefs() {
 
 // translateAttrGroupDefs translates the AST attribute group definitions of the
 // given module to IR.
-func (gen *generator) translateAttrGroupDefs() {
+func (gen *generator) translateAttrGroupDefs() error {
 	// 4b2. Translate AST attribute group definitions to IR.
 	for id, old := range gen.old.attrGroupDefs {
 		new, ok := gen.new.attrGroupDefs[id]
 		if !ok {
 			panic(fmt.Errorf("unable to locate attribute group ID %q", enc.AttrGroupID(id)))
 		}
-		gen.irAttrGroupDef(new, old)
+		if err := gen.irAttrGroupDef(new, old); err != nil {
+			return errors.WithStack(err)
+		}
 	}
+	return nil
 }
 
 // irAttrGroupDef translates the AST attribute group definitions (one or more)
 // to an equivalent IR attribute group definition. Mulriple definitions of the
 // same ID are merged into a single attribute group definition.
-func (gen *generator) irAttrGroupDef(new *ir.AttrGroupDef, oldDefs []*ast.AttrGroupDef) {
+func (gen *generator) irAttrGroupDef(new *ir.AttrGroupDef, oldDefs []*ast.AttrGroupDef) error {
 	// present is used to prevent duplicate attributes when merging multiple
 	// attribute group definitions.
 	present := make(map[string]bool)
@@ -371,11 +376,15 @@ func (gen *generator) irAttrGroupDef(new *ir.AttrGroupDef, oldDefs []*ast.AttrGr
 				// skip duplicate attribute.
 				continue
 			}
-			funcAttr := gen.irFuncAttribute(oldFuncAttr)
+			funcAttr, err := gen.irFuncAttribute(oldFuncAttr)
+			if err != nil {
+				return errors.WithStack(err)
+			}
 			new.FuncAttrs = append(new.FuncAttrs, funcAttr)
 			present[lit] = true
 		}
 	}
+	return nil
 }
 
 // --- [ Named metadata definitions ] ------------------------------------------
